@@ -278,8 +278,14 @@ func (q *Tagged) Push(files []sts.Hashed) {
 		}
 		if orig, ok := q.byFile[file.GetName()]; ok {
 			// If a file by this name is already here, let's start over
+			prev := orig.prev
 			q.removeFile(orig)
 			orig.unlink()
+			if q.headFile[group.name] == nil && prev != nil {
+				// It was the only file left: keep its (completed)
+				// predecessor as the head so the new file still follows it
+				q.headFile[group.name] = prev
+			}
 			list := q.list[group.name]
 			// Have to brute force this since the list may not be sorted by
 			// name
